@@ -245,10 +245,13 @@ fn stage(i: &Input, c: &mut Case) -> Result<(), String> {
     })
 }
 
-pub const STAGES: &[Stage] = &[Stage { name: "streaming", f: stage }];
+// a master End refused because the content does not fit the requested width: the master stays open, so nothing of it may be
+// handed over — before, at or after the refused call (the scenario is built by C19's generator; only the destination is judged here)
+pub const STAGES: &[Stage] = &[Stage { name: "streaming", f: stage }, Stage { name: "refused_end_keeps_content_back", f: super::c19::stage_failed_end_streaming }];
 
 pub fn run(rc: &mut RunCtx) {
     rc.run_pt(STAGES[0], rc.pick(320_000, 1_500_000), (96, 640));
+    rc.run_pt(STAGES[1], rc.pick(80_000, 400_000), (96, 500));
     for l in ["complete_prefix_checked", "known_open_checked", "unknown_then_writes_then_known", "flush_with_open_masters", "with_rejected_calls", "leaves_through_write_raw"] {
         rc.require_label("streaming", l, 20_000);
     }
